@@ -1,4 +1,5 @@
 SPECIFICATION FairSpec
+CONSTANT Bar = TRUE
 CONSTANT Pop = "diffsb"
 INVARIANT TypeOK
 INVARIANT NoInterference
